@@ -294,6 +294,31 @@ pub fn check_smt(choices: &Vec<u16>) -> Out {
             });
         }
     }
+    // last step, sometimes: look up a key that was never inserted but shares its most significant
+    // element - hence its leaf - with a key that is present (smt::get documents "if no values had
+    // been previously inserted under the specified key, an empty word is returned" and lists the
+    // single-pair leaf as supported)
+    let mut colliding_get = false;
+    if ch.chance(1, 4) {
+        let present: Vec<[Felt; 4]> = keys.iter().copied().filter(|k| smt.get_value(&(*k).into()) != [Felt::new(0); 4]).collect();
+        if !present.is_empty() {
+            let base = present[ch.pick(present.len())];
+            let probe = [Felt::new(ch.felt()), Felt::new(ch.felt()), base[2] + Felt::new(1), base[3]];
+            if ch.chance(2, 3) {
+                let v = smt.get_value(&probe.into());
+                src.push_str(&format!("{} exec.smt::get {} assert_eqw.err={}\n", w_top_first(probe), w_top_first(v), 100 + steps));
+                shape.push('c');
+            } else {
+                // removing it: "the new state of the tree is guaranteed to be equivalent to the
+                // state as if the updated value was never inserted"
+                let zero = [Felt::new(0); 4];
+                let old = smt.insert(probe.into(), zero);
+                src.push_str(&format!("{} {} exec.smt::set {} assert_eqw.err={}\n", w_top_first(probe), w_top_first(zero), w_top_first(old), 100 + steps));
+                shape.push('d');
+            }
+            colliding_get = true;
+        }
+    }
     src.push_str("end");
     let sent: Vec<u64> = vec![0x51, 0x52, 0x53];
     let mut stack: Vec<u64> = root0.iter().rev().map(|f| f.as_int()).collect();
@@ -303,6 +328,16 @@ pub fn check_smt(choices: &Vec<u16>) -> Out {
     match exec(&case, "smt")? {
         Res::Err(e) => {
             let step = e.split("err_code: ").nth(1).and_then(|s| s.split(|c: char| !c.is_ascii_digit()).next()).unwrap_or("?").to_string();
+            // an assertion of the library itself (code 0) in a history whose only unusual step is the
+            // final look-up of an absent key in an occupied leaf
+            if colliding_get && (step == "0" || step == "?") {
+                let which = if shape.ends_with('c') { "get" } else { "set-empty" };
+                return Err(Viol::new(
+                    format!("C18:smt-{which}:absent-key-in-occupied-leaf:does-not-complete"),
+                    format!("smt::{which} of a key that was never inserted, whose leaf holds another key, fails instead of returning the empty word ({e}); history '{shape}'"),
+                    cj(),
+                ));
+            }
             Err(Viol::new("C18:smt-history", format!("SMT history '{shape}' diverges from the native sparse Merkle tree (assertion of step {step} / error {e})"), cj()))
         }
         Res::Ok(out, _) => {
